@@ -164,8 +164,11 @@ def _read_kind(n, par):
     return 'used whole in ' + type(p).__name__
 
 
-def check_partial(ctx, w, rule='J-PARTIAL', mods=None):
-    funcs = [f for f in w.model.library_funcs() if '/construct/' not in f.mod and (mods is None or any(f.mod.endswith(m) for m in mods))]
+def check_partial(ctx, w, rule='J-PARTIAL', mods=None, quals=None):
+    """mods: module suffixes a property owns; quals: qualified-name prefixes inside those modules (None = all)"""
+    def mine(f):
+        return (mods is None or any(f.mod.endswith(m) for m in mods)) and (quals is None or any(f.qual.startswith(q) for q in quals))
+    funcs = [f for f in w.model.library_funcs() if '/construct/' not in f.mod and mine(f)]
     allf = [f for f in w.model.library_funcs() if '/construct/' not in f.mod]
     facts = dict((id(f), _func_facts(f)) for f in allf)
     # every Load of an attribute, over the whole library
@@ -241,7 +244,7 @@ def check_partial(ctx, w, rule='J-PARTIAL', mods=None):
         whole = []
         nkeyed = 0
         for g, n, gpar in loads.get(attr, []):
-            if mods is not None and not any(g.mod.endswith(m) for m in mods) and not any(any(f.mod.endswith(m) for m in mods) for f in incr[attr]):
+            if mods is not None and not mine(g) and not any(mine(f) for f in incr[attr]):
                 continue
             k = _read_kind(n, gpar)
             if k == 'keyed':
